@@ -643,6 +643,36 @@ fn cli_level(rep: &Report) {
         });
         rep.extra("cli_stdin_offset_and_name_pair_runs", json!(ojobs.len()));
     }
+    // nobody reads stderr (its reader is gone before the first progress text) while the file goes to a stdout pipe: whatever
+    // the exit status, an exit status of 0 means stdout carries exactly the file
+    {
+        let ej: Vec<&str> = vec!["key", "pass"];
+        ej.par_iter().for_each(|&mode| {
+            rep.eval(1);
+            rep.nontrivial(format!("cli-stderr-gone-{}", mode).as_bytes());
+            let pw = if mode == "key" { parties[0].password.clone() } else { "pw-for-file".to_string() };
+            let body = plaintext(seed ^ 0x87, 1000);
+            let sc = Scratch::new();
+            sc.write("kr.txt", kr.as_bytes());
+            sc.write("plain.bin", &body);
+            let args: Vec<&str> = if mode == "key" { vec!["encrypt", "plain.bin", "-t", &parties[1].name, "-f", &parties[0].name, "-k", "kr.txt", "--env-pass"] } else { vec!["password", "encrypt", "plain.bin", "--env-pass"] };
+            let mut cmd = Cmd::new(&args).env("KESTREL_PASSWORD", &pw);
+            cmd.stderr_reader_leaves_after = Some(0);
+            let out = proc::run(&cmd, &sc.0);
+            if out.timed_out {
+                rep.violation("cli-stdin/ill-behaved", json!({"kind":"cli-stdin","mode":mode,"stderr_gone":true}), "hang".into());
+                return;
+            }
+            if !out.ok() {
+                return;
+            }
+            let file = &out.stdout;
+            let (hdr, good) = if mode == "key" { (132, matches!(r::read_key_file(&parties[1].sk, file), Ok(k) if k.parsed.plaintext == body)) } else { (36, file.len() >= 36 && matches!(r::read_pass_file_with_key(&r::pass_key(pw.as_bytes(), file[4..36].try_into().unwrap()), file), Ok(k) if k.plaintext == body)) };
+            if !good || file.len() != hdr + 32 + body.len() {
+                rep.violation("cli-stdin/output-is-not-the-encryption-of-the-input", json!({"kind":"cli-stdin","mode":mode,"stderr_gone":true}), format!("kestrel {} to a stdout pipe while nobody reads stderr: exit 0 with {} bytes on stdout, starting {:?}; the file has {} bytes and starts with the magic number", args.join(" "), file.len(), String::from_utf8_lossy(&file[..file.len().min(16)]), hdr + 32 + body.len()));
+            }
+        });
+    }
     // stdout is a NON-BLOCKING pipe read slowly (as left behind by ssh or a task runner): the run may fail with an
     // error, but an exit status of 0 promises a conforming file of exactly the prescribed length on the pipe
     {
